@@ -48,6 +48,9 @@ impl Ty {
             Ty::Str => format!("\"s{salt}\""),
             Ty::Object => "{\"any\": [1, \"x\"]}".into(),
             Ty::Opt(t) => t.json(m, salt),
+            // collections of nullable elements carry a null
+            Ty::Arr(t) if matches!(**t, Ty::Opt(_)) => format!("[{}, null, {}]", t.json(m, salt), t.json(m, salt + 1)),
+            Ty::Map(t) if matches!(**t, Ty::Opt(_)) => format!("{{\"k\": {}, \"none\": null}}", t.json(m, salt)),
             Ty::Arr(t) => format!("[{}, {}]", t.json(m, salt), t.json(m, salt + 1)),
             Ty::Map(t) => format!("{{\"k\": {}}}", t.json(m, salt)),
             Ty::CustomStruct(i) => m.struct_json(*i, salt),
@@ -137,7 +140,20 @@ const IFACE_NAMES: [&str; 5] = ["org.c.Plain", "org.c.x-y", "io.c.HTTPApi", "a.b
 /// Types used only for outputs and struct fields (their parameter spelling is not mirrored here).
 fn output_only_types(i: usize) -> Option<Ty> {
     let b = |t: Ty| Box::new(t);
-    let all = [Ty::Arr(b(Ty::Opt(b(Ty::Str)))), Ty::Opt(b(Ty::Arr(b(Ty::Opt(b(Ty::Str)))))), Ty::Arr(b(Ty::Arr(b(Ty::Str)))), Ty::Map(b(Ty::Arr(b(Ty::Str)))), Ty::Arr(b(Ty::Map(b(Ty::Int)))), Ty::Map(b(Ty::Opt(b(Ty::Int))))];
+    let all = [
+        Ty::Arr(b(Ty::Opt(b(Ty::Str)))),
+        Ty::Opt(b(Ty::Arr(b(Ty::Opt(b(Ty::Str)))))),
+        Ty::Arr(b(Ty::Arr(b(Ty::Str)))),
+        Ty::Map(b(Ty::Arr(b(Ty::Str)))),
+        Ty::Arr(b(Ty::Map(b(Ty::Int)))),
+        Ty::Map(b(Ty::Opt(b(Ty::Int)))),
+        Ty::Arr(b(Ty::Opt(b(Ty::Int)))),
+        Ty::Map(b(Ty::Opt(b(Ty::Str)))),
+        Ty::Arr(b(Ty::Opt(b(Ty::Bool)))),
+        Ty::Opt(b(Ty::Map(b(Ty::Opt(b(Ty::Float)))))),
+        Ty::Arr(b(Ty::Opt(b(Ty::InlineStruct)))),
+        Ty::Map(b(Ty::Map(b(Ty::Opt(b(Ty::Int)))))),
+    ];
     if i % 3 == 0 {
         Some(all[(i / 3) % all.len()].clone())
     } else {
@@ -229,6 +245,18 @@ fn edge_interfaces() -> Vec<Iface> {
                 (s("Find2"), vec![(s("a_1"), Ty::CustomEnum(1)), (s("b_2c"), Ty::CustomEnum(2))], vec![(s("r_1"), Ty::CustomEnum(0))]),
             ],
             errors: vec![(s("No64Bit"), vec![(s("x86_64"), Ty::Bool)])],
+            ..Default::default()
+        },
+        Iface {
+            name: s("org.edge.nullable"),
+            structs: vec![(s("Slot"), vec![(s("id"), Ty::Int), (s("label"), Ty::Opt(b(Ty::Str)))])],
+            methods: vec![
+                (s("Quota"), vec![], vec![(s("name"), Ty::Str), (s("xs"), Ty::Arr(b(Ty::Opt(b(Ty::Int))))), (s("by_user"), Ty::Map(b(Ty::Opt(b(Ty::Int)))))]),
+                (s("Slots"), vec![], vec![(s("slots"), Ty::Arr(b(Ty::Opt(b(Ty::CustomStruct(0)))))), (s("named"), Ty::Map(b(Ty::Opt(b(Ty::CustomStruct(0))))))]),
+                (s("Only"), vec![], vec![(s("xs"), Ty::Arr(b(Ty::Opt(b(Ty::Int)))))]),
+                (s("Flags"), vec![], vec![(s("who"), Ty::Str), (s("flags"), Ty::Arr(b(Ty::Opt(b(Ty::Bool))))), (s("ratios"), Ty::Map(b(Ty::Opt(b(Ty::Float)))))]),
+            ],
+            errors: vec![(s("Full"), vec![(s("free"), Ty::Arr(b(Ty::Opt(b(Ty::Int)))))])],
             ..Default::default()
         },
         Iface {
